@@ -236,6 +236,17 @@ def or_any(conds):
     return z3.Or(*out) if len(out) > 1 else out[0]
 
 
+def mk_or(conds):
+    conds = list(conds)
+    if not conds:
+        return z3.BoolVal(False)
+    return z3.Or(*conds) if len(conds) > 1 else conds[0]
+
+
+def mk_bool_term(c):
+    return z3.BoolVal(c) if isinstance(c, bool) else c
+
+
 def neg(c):
     return (not c) if isinstance(c, bool) else z3.Not(c)
 
@@ -845,8 +856,12 @@ def getattr_(I, o, name, node=None):
         sub = I.E.index.module(o.name + "." + name)
         if sub is not None:
             return ModuleRef(o.name + "." + name)
+        if f"{o.name}.{name}" in I.E.external_values:
+            return I.E.external_values[f"{o.name}.{name}"]
         return External(f"{o.name}.{name}")
     if isinstance(o, External):
+        if f"{o.key}.{name}" in I.E.external_values:
+            return I.E.external_values[f"{o.key}.{name}"]
         return External(f"{o.key}.{name}")
     if isinstance(o, Sym) and o.kind == "opaque":
         decl = I.E.opaque_methods.get((o.elem, name))
